@@ -30,6 +30,33 @@ func (s Schema) Codec(out any) (Codec, error) {
 	return buildCodec(s, typ, false)
 }
 
+// clone returns a deep copy of s that shares no slice or object with it.
+func (s Schema) clone() Schema {
+	c := Schema{Type: s.Type}
+	if s.Union != nil {
+		c.Union = make([]Schema, len(s.Union))
+		for i := range s.Union {
+			c.Union[i] = s.Union[i].clone()
+		}
+	}
+	if s.Object != nil {
+		o := *s.Object
+		if o.Fields != nil {
+			o.Fields = make([]SchemaRecordField, len(s.Object.Fields))
+			for i, f := range s.Object.Fields {
+				o.Fields[i] = SchemaRecordField{Name: f.Name, Type: f.Type.clone()}
+			}
+		}
+		o.Items = o.Items.clone()
+		o.Values = o.Values.clone()
+		if o.Symbols != nil {
+			o.Symbols = append([]string{}, o.Symbols...)
+		}
+		c.Object = &o
+	}
+	return c
+}
+
 func (s *Schema) Marshal() ([]byte, error) {
 	return json.Marshal(s)
 }
